@@ -134,7 +134,7 @@ def judgeStats (vals rv : List Bits) (mn mean mx : Bits) : String :=
       else if !(le mn mean && le mean mx) then "mean-outside-min-max"
       else
         let exact := rq.foldl (· + ·) 0 / ((rq.length : Nat) : Rat)
-        let bound := (if rabs mnQ > rabs mxQ then rabs mnQ else rabs mxQ) * pow2 44
+        let bound := (if rabs mnQ > rabs mxQ then rabs mnQ else rabs mxQ) * pow2 44 + mkRat 8 (2 ^ 1074)
         if rabs (toRat mean - exact) > bound then "mean-inaccurate" else "ok"
 
 /-! ### the raw input, declaratively -/
@@ -338,9 +338,11 @@ def judgeTable (st : Settings) (inp : Input) (ims : List ImplMetric) (it : ImplT
                 if gr.bench != geoRowName then "geomean-missing"
                 else if gr.cells.length != nconf then "geomean-cells"
                 else
-                  let bad := (gr.cells.zip inp.configs).any fun (c, cfg) =>
+                  let bad := ((gr.cells.zip inp.configs).zipIdx).any fun ((c, cfg), _) =>
                     let ms := meansOf cfg
                     if ms.isEmpty then !c.unit.isEmpty
+                    else if ms.any (fun m => !isFinite m || expField m == 0) then false   -- non-finite means: correspondence only;
+                      -- subnormal means: Go's amd64 assembly math.Log is inaccurate there (stdlib, see notes/C17.md)
                     else match geoApprox ms with
                       | none => !isNaN c.mean
                       | some g =>
